@@ -7,7 +7,7 @@ Driver for C24 (stateless: every line is self-contained).
 
 values   `i<int>` | `f<code>` (order-preserving float code) | `s<ascii word, may be empty>` |
          `p<type>/<namespace>/<value>` | `b0` `b1`;   items `key:value`
-expr     `(arr it …)` | `(take E n)` | `(filter E FN1)` | `(map E FN1)` | `(mapitems E FN2)` |
+expr     `(arr it …)` | `(take E n)` (n an int, or `f<code>`: a float literal converted by the VM) | `(filter E FN1)` | `(map E FN1)` | `(mapitems E FN2)` |
          `(flatten E …)` | `(join E E)`        (tokens separated by blanks, `)` is its own token)
 FN1      `gtc=<val>` `cgt=<val>` `addc=<int>` `tostr` `id` `konst=<val>`;   FN2  `swap` `incv=<int>` `first`
 
@@ -30,6 +30,13 @@ namespace B6.Driver.C24
 /-! ### parsing -/
 
 def parseInt (s : String) : Option Int := s.toInt?
+
+/-- the count argument of take / top: an int literal, or a float literal `f<code>` that `api.Convert` turns
+into an int -/
+def parseCount (s : String) : Option Int :=
+  match s.toList with
+  | 'f' :: r => (parseInt (String.ofList r)).map floatToInt
+  | _ => parseInt s
 
 def parseVal (s : String) : Option Val :=
   match s.toList with
@@ -93,7 +100,7 @@ def parseCo : Nat → List String → Option (Co × List String)
       let (c, r) ← parseCo f rest
       match r with
       | n :: r => do
-        let n ← parseInt n
+        let n ← parseCount n
         let r ← close r
         pure (.take c n, r)
       | [] => none
@@ -224,7 +231,7 @@ def evalRoot (root : String) (c : Co) (impl : String) : Verdict :=
     | some se, some me =>
       match root.splitOn "=" with
       | ["top", n] =>
-        match parseInt n with
+        match parseCount n with
         | none => .bad
         | some n =>
           let modelAns := match top goHeap m.items me n with
